@@ -1,3 +1,194 @@
+/-
+  Driver/C05.lean — replays a C05 trace (both real FIBs driven by the Go harness) through the two
+  Lean models (expected output → DIFF) and evaluates the specification (Spec.lean: maps + LPM)
+  on the implementation's own outputs (→ SPEC).
+
+  protocol (see harness/c05/c05_test.go):
+    new <m> <n1>,<n2>,…            => ok <root strategy tree> <root strategy hash>
+    ins <name> <face> <cost> | rem <name> <face> | clr <name> | sets <name> <s> | unsets <name>  => ok
+    qa                             => T <hops>@<strat>|…  H <hops>@<strat>|…      (one item per universe name)
+    q <name>                       => T <hops>@<strat> H <hops>@<strat>
+    lf                             => T <name>=<hops>;… H …                          (sorted by name text)
+    ls                             => T <name>=<strat>;… H …
+-/
 import NdnVerif.Driver.Common
--- stub: replaced by the C05 model driver
-def main : IO Unit := IO.println "DONE lines=0 histories=0 diffs=0 specs=0 skipped=0"
+import NdnVerif.C05.Model
+import NdnVerif.C05.Spec
+open Ndn Ndn.Driver Ndn.C05
+
+namespace C05Driver
+
+def insertBy {α : Type} (lt : α → α → Bool) (x : α) : List α → List α
+  | [] => [x]
+  | y :: t => if lt x y then x :: y :: t else y :: insertBy lt x t
+
+def sortBy {α : Type} (lt : α → α → Bool) (l : List α) : List α := l.foldl (fun acc x => insertBy lt x acc) []
+
+def renderHops (h : Hops) : String :=
+  if h.isEmpty then "-"
+  else ",".intercalate ((sortBy (fun a b => a.1 < b.1 || (a.1 == b.1 && a.2 < b.2)) h).map fun p => s!"{p.1}:{p.2}")
+
+def renderStrat : Option Name → String
+  | none => "nil"
+  | some s => s.toText
+
+def renderListing (l : List (String × String)) : String :=
+  if l.isEmpty then "-"
+  else ";".intercalate ((sortBy (fun a b => a.1 < b.1 || (a.1 == b.1 && a.2 < b.2)) l).map fun p => p.1 ++ "=" ++ p.2)
+
+def renderFib (l : List (Name × Hops)) : String := renderListing (l.map fun p => (p.1.toText, renderHops p.2))
+def renderStrats (l : List (Name × Name)) : String := renderListing (l.map fun p => (p.1.toText, p.2.toText))
+
+structure St where
+  univ : List Name := []
+  tree : Tree := Tree.init []
+  hash : Hash := Hash.init 1 []
+  spec : Spec := Spec.init []
+  removed : Bool := false
+
+/-- split "T <x> H <y>" -/
+def splitTH (got : String) : Option (String × String) :=
+  if got.startsWith "T " then
+    match (got.drop 2).toString.splitOn " H " with
+    | [x, y] => some (x, y)
+    | _ => none
+  else none
+
+def firstDiff (a b : List String) (i : Nat := 0) : Option (Nat × String × String) :=
+  match a, b with
+  | [], [] => none
+  | x :: xs, y :: ys => if x == y then firstDiff xs ys (i + 1) else some (i, x, y)
+  | x :: _, [] => some (i, x, "<missing>")
+  | [], y :: _ => some (i, "<missing>", y)
+
+/-- compare one implementation's lookup items with the spec's -/
+def lookupSpec (which : String) (names : List Name) (want got : List String) : List SpecFail :=
+  match firstDiff want got with
+  | none => []
+  | some (i, w, g) =>
+    let nm := (names.getD i []).toText
+    let kind := match w.splitOn "@", g.splitOn "@" with
+      | [wh, _], [gh, _] => if wh != gh then "nexthops" else "strategy"
+      | _, _ => "format"
+    [⟨"lpm-" ++ kind, which, s!"{which} FIB lookup of {nm}: longest-prefix match gives {w}, implementation returned {g}"⟩]
+
+def listSpec (clause which : String) (want got : String) : List SpecFail :=
+  if want == got then []
+  else [⟨clause, which, s!"{which} FIB listing is {got}, the table holds exactly {want}"⟩]
+
+def specItem (s : Spec) (n : Name) : String := renderHops (s.lpmNextHops n) ++ "@" ++ renderStrat (s.lpmStrategy n)
+def treeItem (t : Tree) (n : Name) : String := renderHops (t.findNextHops n) ++ "@" ++ renderStrat (t.findStrategy n)
+def hashItem (h : Hash) (n : Name) : String := renderHops (h.findNextHops n) ++ "@" ++ renderStrat (h.findStrategy n)
+
+def lpmTag (h : Hash) (n : Name) : String :=
+  if n.length ≤ h.m then "hash-lpm-short"
+  else match afind h.virt (n.take h.m) with
+    | none => "hash-lpm-novirt"
+    | some md => match scanReal h.real n (h.m + 1) (min md n.length) with
+      | some _ => "hash-lpm-virt-hit"
+      | none => "hash-lpm-virt-fallback"
+
+def dedup (l : List String) : List String := l.foldl (fun acc x => if acc.contains x then acc else acc ++ [x]) []
+
+def mutate (st : St) (op : Op) (got : String) : StepResult St :=
+  let t' := st.tree.apply op
+  let h' := st.hash.apply op
+  let s' := st.spec.apply op
+  let covT := if t'.nodes.length + 1 < st.tree.nodes.length then ["tree-prune-chain"]
+    else if t'.nodes.length < st.tree.nodes.length then ["tree-prune-leaf"]
+    else if t'.nodes.length > st.tree.nodes.length + 1 then ["tree-fill-chain"]
+    else if t'.nodes.length > st.tree.nodes.length then ["tree-fill-one"] else []
+  let covH := (if h'.virt.length < st.hash.virt.length then ["hash-virt-del"]
+    else if h'.virt.length > st.hash.virt.length then ["hash-virt-new"] else [])
+    ++ (if h'.virt.any (fun p => match afind st.hash.virt p.1 with | some md => p.2 < md | none => false) then ["hash-md-shrink"] else [])
+    ++ (if h'.virt.any (fun p => match afind st.hash.virt p.1 with | some md => p.2 > md | none => false) then ["hash-md-grow"] else [])
+    ++ (if h'.real.length < st.hash.real.length then ["hash-real-del"] else [])
+  let covO := match op with
+    | .ins n f _ => [if hasFace (st.spec.nhAt n) f then "ins-update" else "ins-new"]
+    | .rem n f => [if hasFace (st.spec.nhAt n) f then "rem-hit" else "rem-miss"]
+    | .clr n => [if (st.spec.nhAt n).isEmpty then "clr-miss" else "clr-hit"]
+    | .sets n _ => [if (st.spec.stAt n).isSome then "sets-replace" else "sets-new"]
+    | .unsets n => [if (st.spec.stAt n).isSome then "unsets-hit" else "unsets-miss"]
+  let removed := st.removed || (match op with | .ins .. => false | .sets .. => false | _ => true)
+  { st := { st with tree := t', hash := h', spec := s', removed := removed },
+    expected := some "ok", cov := covT ++ covH ++ covO,
+    spec := if isCrash got then [⟨"no-panic", "op", s!"table operation crashed: {got}"⟩]
+            else if !op.admissible then [] else [] }
+
+def step (st : St) (op : String) (got : String) : StepResult St :=
+  match op.splitOn " " with
+  | ["new", m, names] =>
+    match m.toNat?, (names.splitOn ",").mapM Name.ofText with
+    | some m, some univ =>
+      match got.splitOn " " with
+      | ["ok", dt, dh] =>
+        match Name.ofText dt, Name.ofText dh with
+        | some dt', some dh' =>
+          { st := { univ := univ, tree := Tree.init dt', hash := Hash.init m dh', spec := Spec.init dt' },
+            expected := some got,
+            spec := if dt != dh then [⟨"tree-hash-equal", "root-strategy", s!"root strategies differ: {dt} vs {dh}"⟩] else [] }
+        | _, _ => { st := {}, expected := some "ok <root strategy> <root strategy>",
+                    spec := [⟨"lpm-strategy", "root", s!"a fresh table has no root strategy: {got}"⟩] }
+      | _ => { st := {}, expected := some "ok <root strategy> <root strategy>" }
+    | _, _ => { st := {}, expected := some "bad-op" }
+  | ["ins", n, f, c] =>
+    match Name.ofText n, f.toNat?, c.toNat? with
+    | some n, some f, some c => mutate st (.ins n f c) got
+    | _, _, _ => { st := st, expected := some "bad-op" }
+  | ["rem", n, f] =>
+    match Name.ofText n, f.toNat? with
+    | some n, some f => mutate st (.rem n f) got
+    | _, _ => { st := st, expected := some "bad-op" }
+  | ["clr", n] =>
+    match Name.ofText n with
+    | some n => mutate st (.clr n) got
+    | _ => { st := st, expected := some "bad-op" }
+  | ["sets", n, s] =>
+    match Name.ofText n, Name.ofText s with
+    | some n, some s => mutate st (.sets n s) got
+    | _, _ => { st := st, expected := some "bad-op" }
+  | ["unsets", n] =>
+    match Name.ofText n with
+    | some n =>
+      if n.isEmpty then { st := st, expected := some "skip" }   -- management never produces this
+      else mutate st (.unsets n) got
+    | _ => { st := st, expected := some "bad-op" }
+  | ["qa"] =>
+    let want := st.univ.map (specItem st.spec)
+    let mt := "|".intercalate (st.univ.map (treeItem st.tree))
+    let mh := "|".intercalate (st.univ.map (hashItem st.hash))
+    let sp := match splitTH got with
+      | some (x, y) =>
+        lookupSpec "tree" st.univ want (x.splitOn "|") ++ lookupSpec "hash" st.univ want (y.splitOn "|")
+        ++ (if x != y then [⟨"tree-hash-equal", "lookup", "the two FIB implementations answer differently"⟩] else [])
+      | none => [⟨"no-panic", "qa", s!"lookup crashed or malformed: {got.take 200}"⟩]
+    { st := st, expected := some s!"T {mt} H {mh}", spec := sp,
+      cov := dedup (st.univ.map (lpmTag st.hash)),
+      nontrivial := st.removed && st.spec.nh.length ≥ 2 }
+  | ["q", n] =>
+    match Name.ofText n with
+    | some n =>
+      let want := [specItem st.spec n]
+      let sp := match splitTH got with
+        | some (x, y) => lookupSpec "tree" [n] want [x] ++ lookupSpec "hash" [n] want [y]
+          ++ (if x != y then [⟨"tree-hash-equal", "lookup", "the two FIB implementations answer differently"⟩] else [])
+        | none => [⟨"no-panic", "q", s!"lookup crashed or malformed: {got.take 200}"⟩]
+      { st := st, expected := some s!"T {treeItem st.tree n} H {hashItem st.hash n}", spec := sp, cov := [lpmTag st.hash n] }
+    | none => { st := st, expected := some "bad-op" }
+  | ["lf"] =>
+    let want := renderFib st.spec.listFib
+    let sp := match splitTH got with
+      | some (x, y) => listSpec "list-fib" "tree" want x ++ listSpec "list-fib" "hash" want y
+      | none => [⟨"no-panic", "lf", s!"listing crashed or malformed: {got.take 200}"⟩]
+    { st := st, expected := some s!"T {renderFib st.tree.listFib} H {renderFib st.hash.listFib}", spec := sp }
+  | ["ls"] =>
+    let want := renderStrats st.spec.listStrat
+    let sp := match splitTH got with
+      | some (x, y) => listSpec "list-strategy" "tree" want x ++ listSpec "list-strategy" "hash" want y
+      | none => [⟨"no-panic", "ls", s!"listing crashed or malformed: {got.take 200}"⟩]
+    { st := st, expected := some s!"T {renderStrats st.tree.listStrat} H {renderStrats st.hash.listStrat}", spec := sp }
+  | _ => { st := st, expected := some "bad-op" }
+
+end C05Driver
+
+def main : IO Unit := Ndn.Driver.run ({} : C05Driver.St) C05Driver.step
